@@ -144,14 +144,18 @@ def run_history(h):
     d0 = ["%s=%s/%s" % (name, A.deep_repr(f.__defaults__), A.deep_repr(f.__kwdefaults__)) for name, f in PUBLIC]
     for c in h["calls"]:
         entry = CAT[c["f"]]
-        p = entry["variants"][c.get("variant", 0)]
+        # parameters: an explicit dict ("params", the one-parameter pairs of C11) or a catalogue variant
+        p = c["params"] if c.get("params") is not None else entry["variants"][c.get("variant", 0)]
         ev = {"c": c["c"], "f": c["f"], "raised": False, "err": "", "digest": ""}
         try:
+            if c.get("set_threads"):
+                import numba
+                numba.set_num_threads(int(c["set_threads"]))
             hw = c.get("hw") or [A.H, A.W]
             ins = A.build_inputs(entry, c.get("dtype", "float64"), c.get("layout", "C"), c.get("backend", "numpy"), c.get("seed", 0),
-                                 h=hw[0], w=hw[1])
+                                 h=hw[0], w=hw[1], p=p, finite=bool(c.get("finite")))
             fn = getattr(MODS[entry["mod"]], entry["attr"])
-            args, kwargs = entry["kw"](p, [x for _r, x, _m in ins])
+            args, kwargs = entry["kw"](A.public(p), [x for _r, x, _m in ins])
             with warnings.catch_warnings():
                 warnings.simplefilter("ignore")
                 res = fn(*args, **kwargs)
@@ -163,6 +167,9 @@ def run_history(h):
         ev.update(hidden_state())
         ev["defaults_changed_in"] = changed_defaults(d0)[:5]
         out["events"].append(ev)
+    import resource
+    ru = resource.getrusage(resource.RUSAGE_SELF)
+    out["cpu_s"] = round(ru.ru_utime + ru.ru_stime, 1)      # includes the import of the library
     return out
 
 
